@@ -110,7 +110,7 @@ def cases(ctx):
             yield Case(f'tr_addr {hx(pb.to_bytes())} N', 'ms', nontrivial=True, tag='addr-leading-zero-x')
     # determinism: the same request twice (implementation against itself via the model's fixed answer)
     # full flow through sign_taproot_input on generated transactions
-    for _ in range(ctx.n(16, 800)):
+    for _ in range(ctx.n(16, 300)):
         tx = G.gen_tx(rng, names, kind='segwit', max_in=4, max_out=4, min_out=1, big=False)
         n = len(tx.inputs); i = rng.randrange(n)
         priv = priv_with_parity(rng, rng.random() < 0.5); pub = priv.get_public_key()
